@@ -10,6 +10,7 @@ import (
 	"net/http/httptest"
 	"os"
 	"path/filepath"
+	"sort"
 	"strings"
 	"testing"
 	"testing/synctest"
@@ -136,9 +137,18 @@ func (w *world) apply(o op, gridPos *int) (code int) {
 	return 0
 }
 
-func (w *world) key(gridPos int) string {
-	s, _ := w.store.Stats()
-	return fmt.Sprintf("g%d|n%d|%s", gridPos, s.Total, dump.Canonical(w.a.State, dump.Options{Skip: map[string]bool{
+// key: clock position, the oracle's memory (which pairs were honoured - NOT the number of stored messages, which would
+// make the space infinite although nothing the property can observe depends on it) and the runtime state dump (nonce
+// caches, tolerance in force). The space is finite, so the search runs to its fixpoint instead of a depth limit.
+func (w *world) key(gridPos int, s st) string {
+	var acc []string
+	for k, v := range s.Accepted {
+		if v > 0 {
+			acc = append(acc, k)
+		}
+	}
+	sort.Strings(acc)
+	return fmt.Sprintf("g%d|%v|%s", gridPos, acc, dump.Canonical(w.a.State, dump.Options{Skip: map[string]bool{
 		"mu": true, "now": true, "Now": true, "adaptiveController": true, "routes": true, "pathToRoute": true}}))
 }
 
@@ -244,13 +254,13 @@ func TestCheck(t *testing.T) {
 			if why != "" {
 				res.vk = vioKey(hist, o, grid[gp], s.CurTol)
 			}
-			res.key = w.key(gp)
+			res.key = w.key(gp, next)
 		})
 		return res
 	}
 	if _, child := runner.IsShard(); !child && runner.ReplayPath() == "" {
 		eng := &bfs.Engine[st, op]{
-			Name: "c09", Workers: 1, MaxDepth: runner.Pick(r, 6, 8), MaxTrans: runner.Pick(r, int64(400_000), int64(5_000_000)),
+			Name: "c09", Workers: 1, MaxDepth: runner.Pick(r, 40, 60), MaxTrans: runner.Pick(r, int64(400_000), int64(5_000_000)),
 			Deadline: r.Deadline(50*time.Second, 8*time.Minute),
 			Init:     func() st { return st{CurTol: tol, Accepted: map[string]int{}} }, InitKey: "init",
 			Enabled: enabled, OpName: func(o op) string { return o.Kind },
